@@ -24,6 +24,7 @@ func init() {
 			"(X4) Action.MarshalXML and Action.UnmarshalXML agree on {type attribute, old, new}; marshalling an action whose directly embedded element is nil touches nothing through the nil pointer; " +
 			"(X5) Date is written as text with the layout it is parsed with; " +
 			"(X6) an element is left out only when its value is absent: whenever a single field of the value is set the element's own start token (the wrapper of a block, the element of a type with MarshalXML) is written on every path, and a nil block writes nothing and dereferences nothing. " +
+			"(X8) a time formatted by hand and handed to the encoder (found by type: (time.Time).Format / AppendFormat results that reach an Encoder call, through whatever constant, local or helper) uses the layout the reader parses: the type's own UnmarshalXML with the same layout (osm.Date, the OSM notes format), otherwise time.Time's own unmarshaler, i.e. RFC 3339 with nanoseconds - a layout without fractional seconds drops them; every other time of the package (created_at, closed_at, timestamp, date attributes) is a time.Time written by encoding/xml itself through MarshalText. " +
 			"Types without a hand-written marshaller are written and read by the same tags and are symmetric by construction of encoding/xml (tag well-formedness is C03.T1). " +
 			"NOT decided: equality of values after the trip (time precision, float formatting, strings XML cannot represent), diff create actions holding several elements, allocated-but-empty containers.",
 		Assumptions: []string{"go/types (x/tools v0.29.0)", "documented naming rules of encoding/xml marshalValue/defaultStart (re-implemented in rules/c03_xmlmodel.go)", "the path-enumerating abstract interpreter of rules/c03_eval.go (one iteration per loop, lists built on the path and counted loops unrolled, closures / deferred calls / pointers to fields / unexported dispatch tables followed, calls outside the repository opaque, goroutines / goto / generic functions / unknown call targets make the exploration undecided; Encoder calls are assumed to succeed)", "tables/osmxml.json for document root names"},
@@ -39,8 +40,9 @@ func init() {
 			{ID: "X5", Floor: 2, Doc: "Date: one layout both ways, written and read as text", Run: c04X5},
 			{ID: "X6", Floor: 14, Doc: "an element is skipped only when its value is absent; a nil block writes and dereferences nothing (4 roots + 5 blocks written, 5 blocks absent)", Run: c04X6},
 			{ID: "X7", Floor: 3, Doc: "every XML marshaler (MarshalXML / MarshalXMLAttr / MarshalText) of the package has a value receiver, so that it is in the method set of T and *T and a value that is not addressable is still written in the documented form (5 today)", Run: c04X7},
+			{ID: "X8", Floor: 1, Doc: "a time formatted by hand in an XML writer uses a layout its reader parses: the type's own UnmarshalXML with the same layout, else time.Time's unmarshaler, i.e. RFC 3339 with nanoseconds (Date.MarshalXML)", Run: c04X8},
 		},
-		Mutants: append(append(append([]core.Mutant{}, c04Mutants...), c04Mutants2...), core.Mutant{Name: "x7-date-marshalxml-pointer-receiver", File: "note.go", Find: "func (d Date) MarshalXML(", Replace: "func (d *Date) MarshalXML(", ExpectRule: "X7", ExpectConstruct: "receiver@Date.MarshalXML"}),
+		Mutants: append(append(append(append([]core.Mutant{}, c04Mutants...), c04Mutants2...), c04TimeMutants...), core.Mutant{Name: "x7-date-marshalxml-pointer-receiver", File: "note.go", Find: "func (d Date) MarshalXML(", Replace: "func (d *Date) MarshalXML(", ExpectRule: "X7", ExpectConstruct: "receiver@Date.MarshalXML"}),
 		Benign:  append(append([]core.Mutant{}, c04Benign...), c04Benign2...),
 	})
 }
